@@ -313,6 +313,9 @@ RUNS = {
                  ('MC_Topology_star.cfg', 'num=4000', True)],
 }
 
+def deep_runs(tier):
+    return RUNS[tier] + ([('MC_Topology_q4.cfg', None, True)] if tier == 'thorough' else [])
+
 
 def records(chk, tier, invs, runs=None):
     """Runs TLC for every config of the tier; registers states/transitions
